@@ -196,6 +196,58 @@ async def t_native_cancel_through_cancelled_scope(p: dict) -> Any:
     return [("task", seen.get("task")), ("cancelling_after_scope", seen.get("cancelling_after_scope"))]
 
 
+F21_EAGER = "eager-3.12:scope-cancelled-by-eagerly-started-native-child-while-its-host-is-running"
+
+
+async def t_native_child_cancels_scope(p: dict) -> Any:
+    """a NATIVE child task (loop.create_task / asyncio.TaskGroup) cancels the AnyIO scope of
+    its parent; the parent stays ``awaits`` checkpoints inside the scope, leaves it and then
+    awaits three times: those awaits run undisturbed and Task.cancelling() is 0.  With the
+    eager task factory the child runs inside create_task(), i.e. while the host is running"""
+    import sys
+
+    from anyio import CancelScope
+
+    seen: dict = {"sync": False}
+    res: list = []
+
+    async def child(scope) -> None:  # noqa: ANN001
+        scope.cancel()
+        seen["ran"] = True
+
+    async def host() -> None:
+        me = asyncio.current_task()
+        with CancelScope() as s:
+            if p["via"] == "taskgroup":
+                async with asyncio.TaskGroup() as g:
+                    g.create_task(child(s))
+                    seen["sync"] = seen.get("ran", False)
+            else:
+                t = asyncio.get_running_loop().create_task(child(s))
+                seen["sync"] = seen.get("ran", False)
+                seen["t"] = t
+
+            for _ in range(p["awaits"]):
+                await asyncio.sleep(0)
+
+        res.append(("cancelling_after_scope", me.cancelling()))
+        for i in range(3):
+            try:
+                await asyncio.sleep(0)
+            except asyncio.CancelledError as e:
+                res.append(("stray_cancellation_at_await", i, str(e.args[:1])[:40]))
+                break
+        else:
+            res.append(("awaits_after_scope", "undisturbed"))
+
+    t = asyncio.get_running_loop().create_task(host())
+    await asyncio.wait([t])
+    res.append(("host", "cancelled" if t.cancelled() else "done"))
+    res.append(("child_ran_inside_create_task", seen["sync"]))
+    res.append(("py<3.13", sys.version_info < (3, 13)))
+    return res
+
+
 TWIN_SCENARIOS = {
     "timeout_not_firing": t_timeout_not_firing,
     "timeout_firing": t_timeout_firing,
@@ -221,6 +273,10 @@ def cases():  # noqa: ANN201
                    "children": children, "gap": False}  # fmt: skip
             yield {"t": "native_through", "cfg": cfg, "order": "native-then-scope-same-step",
                    "children": children, "gap": False}  # fmt: skip
+
+        for via in ("create_task", "taskgroup"):
+            for awaits in (0, 1, 2):
+                yield {"t": "native_child_cancels", "cfg": cfg, "via": via, "awaits": awaits}
 
 
 def execute(case: dict) -> dict:
@@ -250,6 +306,25 @@ def execute(case: dict) -> dict:
         if with_cancel != twin:
             viol.append(("C05", "native-construct-behaves-differently-after-absorbed-cancellation",
                          results))  # fmt: skip
+    elif case["t"] == "native_child_cancels":
+        res = go(t_native_child_cancels_scope, case)
+        results = {"observed": res}
+        out["windows"]["native_child_cancels_parent_scope"] = 1
+        d = {x[0]: x[1:] for x in res}
+        if d.get("child_ran_inside_create_task") == (True,):
+            out["windows"]["scope_cancelled_while_its_host_was_running(eager)"] = 1
+
+        if "awaits_after_scope" not in d or d.get("cancelling_after_scope") != (0,) or d.get("host") != ("done",):
+            # F21: the eagerly started child called cancel() on the scope of a host that is
+            # on the stack (running, but not current_task()); the host left the scope without
+            # suspending in it; CPython < 3.13 keeps Task._must_cancel set after uncancel()
+            mech = None
+            if (case["cfg"] == "eager" and d.get("child_ran_inside_create_task") == (True,)
+                    and case["awaits"] == 0
+                    and d.get("py<3.13") == (True,) and "stray_cancellation_at_await" in d):  # fmt: skip
+                mech = F21_EAGER
+
+            viol.append(("C05", "later-awaits-disturbed-after-scope-exit", results, mech))
     else:
         res = go(t_native_cancel_through_cancelled_scope, case)
         results = {"observed": res}
